@@ -27,19 +27,34 @@ def opname(e):
     return e[2][1] if ilshape.is_il(e) and e[2][0] == "op" else None
 
 
+ENV = {}         # source name -> bit list / constant: pins a register or a temporary for one evaluation
+
+
 def cfold(e):
-    """Value of an IL term made of constants only (modulo its width), else None."""
+    """Value of an IL term made of constants only (modulo its width), else None.  Shifts by the width or more give 0
+    (the IL's semantics, property C04)."""
     if not ilshape.is_il(e):
         return None
     w = width(e)
     s = e[2]
     if s[0] == "const":
-        return None if s[1] is None or w is None else s[1] % (1 << w)
-    if s[0] == "op" and w is not None and len(s[2]) == 2 and s[1] in ("Add", "Sub", "And", "Or", "Xor", "Mul"):
+        if s[1] is None:
+            v = ENV.get("const#%s" % s[2]) if len(s) > 2 else None
+            return v % (1 << w) if isinstance(v, int) and w is not None else None
+        return None if w is None else s[1] % (1 << w)
+    if s[0] in ("scalar", "opaque"):
+        v = ENV.get(src_name(s))
+        return v % (1 << w) if isinstance(v, int) and w is not None else None
+    if s[0] == "op" and w is not None and len(s[2]) == 2 and s[1] in ("Add", "Sub", "And", "Or", "Xor", "Mul", "Shl", "Shr"):
         a, b = cfold(s[2][0]), cfold(s[2][1])
         if a is None or b is None:
             return None
-        v = {"Add": a + b, "Sub": a - b, "And": a & b, "Or": a | b, "Xor": a ^ b, "Mul": a * b}[s[1]]
+        if s[1] == "Shl":
+            v = 0 if b >= w else a << b
+        elif s[1] == "Shr":
+            v = 0 if b >= w else a >> b
+        else:
+            v = {"Add": a + b, "Sub": a - b, "And": a & b, "Or": a | b, "Xor": a ^ b, "Mul": a * b}[s[1]]
         return v % (1 << w)
     return None
 
@@ -52,6 +67,11 @@ def bits(e):
     if w is None:
         return None
     s = e[2]
+    cv = cfold(e)
+    if cv is not None:
+        return [(cv >> i) & 1 for i in range(w)]
+    if s[0] in ("scalar", "opaque") and isinstance(ENV.get(src_name(s)), list):
+        return list(ENV[src_name(s)])[:w]
     if s[0] == "const":
         if s[1] is None:
             # an immediate whose value is not known statically is a source of its own
